@@ -59,9 +59,15 @@ func symKeyF(v ssa.Value, fr *symFrame, depth int) string {
 				return s
 			}
 		}
-		return x.Name()
+		return paramKey(x)
 	case *ssa.FreeVar:
-		return x.Name()
+		// a captured variable: named by its position among the literal's free variables
+		for i, fv := range x.Parent().FreeVars {
+			if fv == x {
+				return fmt.Sprintf("^%d", i)
+			}
+		}
+		return "^?"
 	case *ssa.Global:
 		return x.Pkg.Pkg.Name() + "." + x.Name()
 	case *ssa.Const:
@@ -126,7 +132,7 @@ func symKeyF(v ssa.Value, fr *symFrame, depth int) string {
 		return "next(" + k(x.Iter) + ")"
 	case *ssa.Phi:
 		if x.Comment != "" {
-			return "phi:" + x.Comment
+			return "phi:" + phiVarKey(x)
 		}
 		return fmt.Sprintf("phi(%s.%d:%s)", x.Parent().Name(), x.Block().Index, x.Name())
 	}
@@ -137,8 +143,15 @@ func symAddrKey(a ssa.Value, fr *symFrame, depth int) string {
 	switch x := a.(type) {
 	case *ssa.FieldAddr:
 		if al, ok := x.X.(*ssa.Alloc); ok && al.Comment != "" {
-			// a local struct variable (or composite literal): name it by the variable
-			return al.Comment + "." + fieldVarOfAddr(x).Name()
+			// a local struct variable (or composite literal, or the spill of a
+			// struct parameter): named by what it is, never by its source name
+			if sv := singleStore(al); sv != nil {
+				if _, isP := sv.(*ssa.Parameter); !isP {
+					// assigned once as a whole: the variable stands for that value
+					return symKeyF(sv, fr, depth+1) + "." + fieldVarOfAddr(x).Name()
+				}
+			}
+			return allocKey(al) + "." + fieldVarOfAddr(x).Name()
 		}
 		switch x.X.(type) {
 		case *ssa.FieldAddr, *ssa.IndexAddr:
@@ -158,7 +171,7 @@ func symAddrKey(a ssa.Value, fr *symFrame, depth int) string {
 		if sv := singleStore(x); sv != nil {
 			return symKeyF(sv, fr, depth+1)
 		}
-		return "local:" + x.Comment
+		return allocKey(x)
 	}
 	return "*" + symKeyF(a, fr, depth+1)
 }
@@ -444,4 +457,117 @@ func modulePrefix(fn *ssa.Function) string {
 		return strings.Join(parts[:3], "/")
 	}
 	return p
+}
+
+// paramKey: a parameter is named by its position ($0 is the receiver of a
+// method), never by its source name: renaming a parameter must not change a key.
+func paramKey(p *ssa.Parameter) string {
+	for i, q := range p.Parent().Params {
+		if q == p {
+			return fmt.Sprintf("$%d", i)
+		}
+	}
+	return "$?"
+}
+
+// allocKey: a local variable is named by its type and, if the function has
+// several of that type, its ordinal among them – or by the parameter it is the
+// addressable copy of. Synthetic temporaries keep go/ssa's comment (complit,
+// slicelit, varargs, …), which does not come from the source.
+func allocKey(al *ssa.Alloc) string {
+	if sv := singleStore(al); sv != nil {
+		if p, ok := sv.(*ssa.Parameter); ok {
+			return paramKey(p)
+		}
+	}
+	switch al.Comment {
+	case "complit", "slicelit", "varargs", "makeslice", "new", "":
+		return "local:" + al.Comment
+	}
+	ts := func(a *ssa.Alloc) string {
+		return types.TypeString(a.Type().(*types.Pointer).Elem(), func(*types.Package) string { return "" })
+	}
+	t := ts(al)
+	k := 0
+	done := false
+	for _, b := range al.Parent().Blocks {
+		for _, ins := range b.Instrs {
+			if a, ok := ins.(*ssa.Alloc); ok {
+				if a == al {
+					done = true
+					break
+				}
+				switch a.Comment {
+				case "complit", "slicelit", "varargs", "makeslice", "new", "":
+					continue
+				}
+				if sv := singleStore(a); sv != nil {
+					if _, isP := sv.(*ssa.Parameter); isP {
+						continue
+					}
+				}
+				if ts(a) == t {
+					k++
+				}
+			}
+		}
+		if done {
+			break
+		}
+	}
+	if k > 0 {
+		return fmt.Sprintf("local:%s#%d", t, k)
+	}
+	return "local:" + t
+}
+
+// phiVarKey: the variable a phi belongs to (go/ssa records its source name in
+// the comment) is named by the parameter it is, or by its type and its ordinal
+// among the function's loop-carried variables of that type – never by the
+// source name. Synthetic variables (rangeindex) keep go/ssa's name.
+func phiVarKey(x *ssa.Phi) string {
+	if strings.HasPrefix(x.Comment, "rangeindex") || strings.HasPrefix(x.Comment, "rangeiter") {
+		return x.Comment
+	}
+	fn := x.Parent()
+	for _, p := range fn.Params {
+		if p.Name() == x.Comment && types.Identical(p.Type(), x.Type()) {
+			return paramKey(p)
+		}
+	}
+	ts := func(p *ssa.Phi) string { return types.TypeString(p.Type(), func(*types.Package) string { return "" }) }
+	t := ts(x)
+	var order []string
+	seen := map[string]bool{}
+	for _, b := range fn.Blocks {
+		for _, ins := range b.Instrs {
+			p, ok := ins.(*ssa.Phi)
+			if !ok {
+				break
+			}
+			if p.Comment == "" || strings.HasPrefix(p.Comment, "rangei") || ts(p) != t || seen[p.Comment] {
+				continue
+			}
+			isParam := false
+			for _, q := range fn.Params {
+				if q.Name() == p.Comment && types.Identical(q.Type(), p.Type()) {
+					isParam = true
+				}
+			}
+			if isParam {
+				continue
+			}
+			seen[p.Comment] = true
+			order = append(order, p.Comment)
+		}
+	}
+	for k, name := range order {
+		if name == x.Comment {
+			if k == 0 {
+				return t
+			}
+			return fmt.Sprintf("%s#%d", t, k)
+		}
+	}
+	return t + "#?"
 }
